@@ -84,6 +84,10 @@ func newTailRig(e *Env, opts ...tailer.Option) *tailRig {
 // quiesce runs the scheduler until nothing is runnable.
 func (r *tailRig) quiesce() bool {
 	if !r.e.S.Run(400000) {
+		if r.e.S.Livelock != "" {
+			r.e.Fail("livelock", "a goroutine spins without ever blocking: %s", r.e.S.Livelock)
+			return false
+		}
 		r.e.Fail("not-quiescent", "tailer did not become quiescent within the step budget (%d steps so far)", r.e.S.Steps)
 		return false
 	}
